@@ -242,7 +242,31 @@ func genNilpatRandom(r *rand.Rand, tier string) string {
 		}
 		return st
 	}
-	return mk(depth, true).String() + " | defrag " + ms
+	root := mk(depth, true)
+	if r.Intn(3) == 0 {
+		// aim the scan limit at the boundaries of this very pattern: position of the first gap, number of nils,
+		// longest run, each -1 / +0 / +1 / +2
+		first, total, run, longest := -1, 0, 0, 0
+		for i, x := range root.Xs {
+			if x.T == 'N' {
+				if first < 0 {
+					first = i
+				}
+				total++
+				run++
+				if run > longest {
+					longest = run
+				}
+			} else {
+				run = 0
+			}
+		}
+		base := []int{first, total, longest}[r.Intn(3)]
+		if n := base + r.Intn(4) - 1; n > 0 {
+			ms = strconv.Itoa(n)
+		}
+	}
+	return root.String() + " | defrag " + ms
 }
 
 func defragErrClass(e error) string {
